@@ -94,9 +94,10 @@ class Engine(object):
     """One engine object explores one harness instance (or a sub-tree of it)."""
 
     def __init__(self, harness, shadow=True, solver_timeout_ms=20000,
-                 allow_render=False, reset=None):
+                 allow_render=False, reset=None, shadow_every=1):
         self.harness = harness
         self.shadow = shadow
+        self.shadow_every = shadow_every
         self.allow_render = allow_render
         self.reset = reset
         self.solver = z3.Solver()
@@ -545,7 +546,8 @@ class Engine(object):
                 info = conc["info"]
             self.violations.append(Violation(label, info, vals, list(self.choices),
                                              list(self.trace)))
-        elif self.shadow:
+        elif self.shadow and (self.shadow_every <= 1 or
+                              (sum(self.trace) + len(self.trace)) % self.shadow_every == 0):
             self._shadow()
         if len(self.samples) < 3 and not self.path_violation:
             self._sample()
